@@ -24,8 +24,21 @@ Three things are checked:
      and the integrator helper's checks must not raise; for a sample (thorough:
      every distinct outcome) the whole code generation must succeed.  A raise is
      a property failure with the concrete configuration as replay.
- (c) execution: a stratified sample is compiled and run for 2 steps with
-     output enabled; every float property must stay finite.
+ (c) execution: a stratified sample of configurations is compiled and RUN on
+     realistic arrays (uniform lattice with h = hdx*dx; the ideal-gas schemes
+     get e, p and the pilot smoothing length h0 = h the shipped examples
+     pass; walls where the configuration has solids; a gentle velocity
+     field), in an open and in a periodic domain: initial evaluation + 3
+     steps with output enabled; after each of them every floating-point
+     property of the REAL particles must be finite.  quick: every scheme
+     class (EDAC per formulation) once per run, ~35 (configuration, domain)
+     variants chosen by walking through a pairwise cover of each scheme's
+     options with the seed; thorough: the whole pairwise covers.  Failure
+     keys C12:<Scheme>:non-finite:<array>.<prop>, C12:<Scheme>:run:<exception>,
+     C12:<Scheme>:crash (worker killed by a signal), C12:<Scheme>:timeout.
+     All worker processes are run by ProcRunner, which detects dead workers
+     and enforces a per-job limit (multiprocessing.Pool hangs for ever when a
+     worker is killed).
  (d) types: for EVERY grid point the known C types the real code generator is
      given (get_known_types_for_arrays(get_all_array_names(arrays))) must be
      integer pointers for every array argument an element of which an equation
@@ -35,12 +48,15 @@ Three things are checked:
      (pyx -> C++, no C compiler), set up as compyle's ExtModule does.  A Cython
      error is a property failure `C12:<Scheme>:cython:<first error>`.
 """
+import collections
 import contextlib
+import importlib
 import io
 import json
 import multiprocessing as mp
 import os
 import random
+import signal
 import sys
 import time
 import traceback
@@ -287,82 +303,440 @@ def examine(job):
 
 
 # --------------------------------------------------------------------------
+# a process runner that survives dying workers
+#
+# multiprocessing.Pool loses the task of a worker that is killed by a signal
+# (SIGSEGV in generated code, the OOM killer): the pool replaces the worker,
+# the result never arrives and imap/map_async wait for ever with all workers
+# idle -- which is how the previous thorough run of this harness hung (a
+# compiled run that segfaults).  Here every task (a chunk of jobs) runs in a
+# forked child of its own with a pipe back to the parent; the parent notices
+# end-of-file on the pipe (child died: reported with the signal), enforces a
+# wall-clock limit per task (process group killed), and isolates the culprit
+# of a multi-job chunk by re-running its jobs one by one.
+
+def _signame(code):
+    if code is None:
+        return 'no exit status'
+    if code < 0:
+        try:
+            return 'killed by %s' % signal.Signals(-code).name
+        except ValueError:
+            return 'killed by signal %d' % -code
+    return 'exit status %d' % code
+
+
+def _child(func, jobs, w):
+    try:
+        try:
+            os.setsid()         # own process group: compilers die with us
+        except OSError:
+            pass
+        res = []
+        for j in jobs:
+            try:
+                res.append(func(j))
+            except BaseException:   # noqa: B036 (SystemExit of a failed build)
+                res.append({'_exception': traceback.format_exc()[-2000:]})
+        w.send(res)
+        w.close()
+    finally:
+        os._exit(0)
+
+
+class ProcRunner(object):
+    def __init__(self, func, nproc, ctx=None):
+        self.func = func
+        self.nproc = max(1, nproc)
+        self.ctx = ctx or mp.get_context('fork')
+        self.queue = collections.deque()
+        self.live = {}
+        self.stats = {'tasks': 0, 'crash': 0, 'timeout': 0, 'split': 0}
+
+    def add(self, jobs, timeout, chunk=1):
+        jobs = list(jobs)
+        for k in range(0, len(jobs), chunk):
+            self.queue.append((jobs[k:k + chunk], timeout))
+
+    def _start(self, jobs, timeout):
+        r, w = self.ctx.Pipe(duplex=False)
+        p = self.ctx.Process(target=_child, args=(self.func, jobs, w))
+        p.daemon = True
+        p.start()
+        w.close()
+        self.live[r] = (p, jobs, time.time(), timeout)
+        self.stats['tasks'] += 1
+
+    @staticmethod
+    def _reap(p, r):
+        try:
+            os.killpg(p.pid, signal.SIGKILL)
+        except (OSError, ProcessLookupError):
+            pass
+        if p.is_alive():
+            p.kill()
+        p.join(30)
+        try:
+            r.close()
+        except OSError:
+            pass
+
+    def _failed(self, jobs, timeout, status, why):
+        """a task without an answer: isolate the job, or report it"""
+        if len(jobs) > 1:
+            self.stats['split'] += 1
+            for j in jobs:
+                self.queue.append(([j], timeout))
+            return []
+        self.stats[status] += 1
+        return [(jobs[0], status, why)]
+
+    def run(self):
+        """generator of (job, status, payload); status 'ok' (payload = the
+        function's answer), 'crash' or 'timeout' (payload = what happened)"""
+        from multiprocessing.connection import wait
+        while self.queue or self.live:
+            while self.queue and len(self.live) < self.nproc:
+                self._start(*self.queue.popleft())
+            for r in wait(list(self.live), timeout=1.0):
+                p, jobs, t0, tmo = self.live.pop(r)
+                try:
+                    res = r.recv()
+                except (EOFError, OSError):
+                    res = None
+                p.join(20)
+                code = p.exitcode
+                self._reap(p, r)
+                if res is not None and len(res) == len(jobs):
+                    for j, o in zip(jobs, res):
+                        yield j, 'ok', o
+                else:
+                    for x in self._failed(
+                            jobs, tmo, 'crash',
+                            'worker process died without an answer after '
+                            '%.0fs: %s' % (time.time() - t0, _signame(code))):
+                        yield x
+            now = time.time()
+            for r, (p, jobs, t0, tmo) in list(self.live.items()):
+                if now - t0 > tmo * len(jobs):
+                    del self.live[r]
+                    self._reap(p, r)
+                    for x in self._failed(
+                            jobs, tmo, 'timeout',
+                            'no answer within %ds: worker killed' % tmo):
+                        yield x
+
+
+def preimport():
+    """import, in the parent, what every job needs (no pysph code RUNS here:
+    forking after OpenMP regions have run is not safe)"""
+    import numpy  # noqa: F401
+    import mako.template  # noqa: F401
+    import Cython.Build  # noqa: F401
+    import Cython.Distutils  # noqa: F401
+    import pysph.base.utils  # noqa: F401
+    import pysph.base.nnps  # noqa: F401
+    import pysph.sph.acceleration_eval  # noqa: F401
+    import pysph.sph.acceleration_eval_cython_helper  # noqa: F401
+    import pysph.sph.sph_compiler  # noqa: F401
+    import pysph.sph.integrator_cython_helper  # noqa: F401
+    import pysph.solver.solver  # noqa: F401
+    import pysph.tools.sph_evaluator  # noqa: F401
+    import compyle.ext_module  # noqa: F401
+    for sp in S.SPECS.values():
+        importlib.import_module(sp['cls'].rpartition('.')[0])
+
+
+# --------------------------------------------------------------------------
 # compile + run
 
-# schemes whose 2-step run on the small free-standing lattice block used here
-# diverges on the UNCHANGED tree (blow-up of the pressure iteration, not a
-# missing property): finiteness is recorded but not demanded for them
-FINITE_NOT_DEMANDED = {
-    'PCISPHScheme': 'pressure-correction iteration diverges on an unconfined '
-                    '5x5 block with dt=1e-4',
-}
+NSTEPS = 3
+RUN_N = {1: 24, 2: 10, 3: 7}      # fluid lattice points per direction
+WALL_LAYERS = 3
+WALL_H_FACTOR = 2.0
+GAMMA = 1.4
+# schemes with an ideal-gas equation of state (p from the thermal energy e)
+GAS = ('GasDScheme', 'GSPHScheme', 'ADKEScheme', 'MAGMA2Scheme',
+       'TSPHScheme', 'PSPHScheme', 'CRKSPHScheme')
 
-def init_values(particles):
-    """physically harmless starting values for the properties set-up added"""
+
+def periodic_dims(dim, walls):
+    """axes made periodic in the `periodic` variant: all of them for fluid
+    alone; with walls (below / above the fluid in the LAST direction) the
+    lateral ones"""
+    return list(range(dim)) if not walls else list(range(dim - 1))
+
+
+def run_arrays(name, dim, fluids, sol, extra, domain):
+    """the particle arrays an application would hand to the scheme: a uniform
+    lattice of spacing dx with h = hdx*dx (= hfact*dx = kernel_factor*dx for
+    the gas-dynamics schemes), m = rho*dx^dim, a gentle Taylor-Green like
+    velocity field, p = 0 (liquids) or the ideal-gas state e = 2.5, p =
+    (gamma-1) rho e with the pilot smoothing length h0 = h that every shipped
+    gas-dynamics example passes.  Plain pysph.base.utils.get_particle_array
+    arrays: everything else is the scheme's setup_properties' business.
+    `solids` form a wall of 3 layers below the fluid in the last direction,
+    the inviscid solid (EDAC) a wall above it; in the open variant the walls
+    extend 3 layers sideways, in the periodic one they span the period.  For
+    the ideal-gas schemes the wall is a closed frame around the gas (below
+    and above it in the periodic variant) with twice the fluid's h.
+    The periodic variant is periodic in every direction without walls, in
+    the lateral directions with walls (none in 1D).
+    -> (arrays, DomainManager or None)"""
     import numpy as np
+    from pysph.base.utils import get_particle_array
+    from pysph.base.nnps import DomainManager
+    dx = S.DX
+    n = RUN_N[dim]
+    L = n * dx
+    gas = name in GAS
+    rho = 1.0 if gas else 1000.0
+    ax = (np.arange(n) + 0.5) * dx
+    walls = bool(sol or extra)
+    per = periodic_dims(dim, walls) if domain == 'periodic' else []
+    if domain == 'periodic' and not per:
+        raise ValueError('no periodic variant of a 1D problem with walls')
+
+    def block(axes):
+        g = np.meshgrid(*axes, indexing='ij')
+        co = [a.ravel().copy() for a in g]
+        return co + [np.zeros_like(co[0]) for _ in range(3 - dim)]
+
+    out = []
+    for nm in fluids + sol + extra:
+        if nm in fluids:
+            co = block([ax] * dim)
+            k = 2 * np.pi / L
+            U = 0.1
+            if dim == 1:
+                vel = [U * np.sin(k * co[0]), 0 * co[0], 0 * co[0]]
+            else:
+                vel = [-U * np.cos(k * co[0]) * np.sin(k * co[1]),
+                       U * np.sin(k * co[0]) * np.cos(k * co[1]), 0 * co[0]]
+        elif gas:
+            # a gas is confined (as in the shipped wall examples: a free
+            # surface to vacuum is not a gas-dynamics problem): the wall is a
+            # frame of 3 layers around the fluid on every side that is not
+            # periodic
+            full = (np.arange(-WALL_LAYERS, n + WALL_LAYERS) + 0.5) * dx
+            axes = [ax if d in per else full for d in range(dim)]
+            co = block(axes)
+            inside = np.ones(co[0].size, dtype=bool)
+            for d in range(dim):
+                inside &= (co[d] > 0.0) & (co[d] < L)
+            co = [c[~inside] for c in co]
+            vel = [0 * co[0]] * 3
+        else:
+            lat = ax if domain == 'periodic' else \
+                (np.arange(-WALL_LAYERS, n + WALL_LAYERS) + 0.5) * dx
+            lay = (np.arange(-WALL_LAYERS, 0) + 0.5) * dx if nm in sol else \
+                (np.arange(n, n + WALL_LAYERS) + 0.5) * dx
+            co = block([lat] * (dim - 1) + [lay])
+            vel = [0 * co[0]] * 3
+        props = dict(x=co[0], y=co[1], z=co[2], u=vel[0], v=vel[1], w=vel[2],
+                     m=rho * dx ** dim, h=S.HDX * dx, rho=rho)
+        if gas:
+            e = 2.5
+            # the wall's smoothing length is larger than the fluid's (as in
+            # the shipped wall examples) so that every wall particle of the
+            # frame has fluid neighbours: one without is left at rho = m = 0
+            # by WallBoundary and must not be within a fluid particle's reach
+            hw = S.HDX * dx * (1.0 if nm in fluids else WALL_H_FACTOR)
+            props.update(e=e, p=(GAMMA - 1.0) * rho * e, h=hw, h0=hw)
+        else:
+            props.update(p=0.0)
+        out.append(get_particle_array(name=nm, **props))
+    dom = None
+    if per:
+        kw = {}
+        for d in per:
+            c = 'xyz'[d]
+            kw[c + 'min'] = 0.0
+            kw[c + 'max'] = L
+            kw['periodic_in_' + c] = True
+        dom = DomainManager(**kw)
+    return out, dom
+
+
+def set_wall_inputs(particles, dim, fluids, equations):
+    """what a scheme leaves to the application for the WALL arrays (every
+    shipped example with walls sets them after setup_properties):
+      * the unit normals xn, yn, zn pointing into the fluid, where the scheme
+        created them;
+      * the number density V = 1/dx^dim and the reference density rho0 = rho
+        of the wall particles, where NO equation of the scheme has the wall
+        as destination with d_V / d_rho0 among its arguments, i.e. where the
+        scheme never computes them (transport-velocity family: V; GTVF's
+        CorrectDensity reads s_rho0 of the walls).
+    Nothing is pre-filled for the fluid arrays, and nothing that the scheme
+    computes itself before use: a missing or skipped computation must show.
+    -> [(array, property)] set"""
+    from pysph.sph.equation import Group
+    written = {}
+    for st in S.flatten_groups(equations):
+        for _, eq in st:
+            src, dst = Group([eq]).get_array_names()
+            written.setdefault(eq.dest, set()).update(x[2:] for x in dst)
+    c = ('xn', 'yn', 'zn')[dim - 1]
+    done = []
+    mid = S.DX * RUN_N[dim] / 2.0
     for pa in particles:
-        n = pa.get_number_of_particles()
-        if n == 0:
+        if pa.name in fluids or pa.get_number_of_particles() == 0:
             continue
-        if 'e' in pa.properties:
-            pa.e[:] = 1.0
-        if 'cs' in pa.properties:
-            pa.cs[:] = 1.0
-        if 'rho0' in pa.properties and len(pa.rho0) == n:
-            pa.rho0[:] = pa.rho
-        if 'h0' in pa.properties and len(pa.h0) == n:
-            pa.h0[:] = pa.h
-        if 'V' in pa.properties:
-            pa.V[:] = pa.rho / pa.m
-        if 'n' in pa.properties and len(pa.n) == n:
-            pa.n[:] = pa.rho / pa.m
-        for nm in ('xn', 'yn', 'zn'):
-            if nm in pa.properties:
-                getattr(pa, nm)[:] = 1.0 if nm == 'yn' else 0.0
+        n = pa.get_number_of_particles()
+        if all(k in pa.properties for k in ('xn', 'yn', 'zn')):
+            for k in ('xn', 'yn', 'zn'):
+                getattr(pa, k)[:] = 0.0
+            pos = getattr(pa, 'xyz'[dim - 1])
+            getattr(pa, c)[:] = [1.0 if q < mid else -1.0 for q in pos]
+            done += [(pa.name, k) for k in ('xn', 'yn', 'zn')]
+        for k, val in (('V', 1.0 / S.DX ** dim), ('rho0', None)):
+            if k in pa.properties and len(pa.get(k)) == n and \
+                    k not in written.get(pa.name, set()):
+                pa.get(k)[:] = pa.rho if val is None else val
+                done.append((pa.name, k))
+    return done
+
+
+def nonfinite_real(particles):
+    """[(array.prop, number of non-finite entries)] over the REAL particles'
+    entries of every floating-point property"""
+    import numpy as np
+    bad = []
+    for pa in particles:
+        nr = pa.num_real_particles
+        for p, arr in pa.properties.items():
+            a = arr.get_npy_array()
+            if a.dtype.kind != 'f':
+                continue
+            a = a[:nr * int(pa.stride.get(p, 1))]
+            k = int(a.size - np.count_nonzero(np.isfinite(a)))
+            if k:
+                bad.append(('%s.%s' % (pa.name, p), k))
+    return sorted(bad)
+
+
+class _NonFinite(Exception):
+    pass
+
+
+def _serialise_builds():
+    """compyle guards the build of a generated module by a lock that gives up
+    after 90 s; two workers with the same generated source (same scheme,
+    options that only change numbers; the open and the periodic variant) must
+    not build it at the same time: the second waits here and then finds the
+    module in the cache"""
+    import fcntl
+    from compyle import ext_module as EM
+    if getattr(EM.ExtModule, '_c12_serialised', False):
+        return
+    orig = EM.ExtModule.write_and_build
+
+    def write_and_build(self):
+        if os.path.exists(self.ext_path):
+            return orig(self)
+        with open(self.lock_path + '.c12', 'w') as fh:
+            fcntl.flock(fh, fcntl.LOCK_EX)
+            try:
+                return orig(self)
+            finally:
+                fcntl.flock(fh, fcntl.LOCK_UN)
+    EM.ExtModule.write_and_build = write_and_build
+    EM.ExtModule._c12_serialised = True
 
 
 def run_job(job):
-    """worker: compile one grid point for real and run 2 steps"""
-    name, idx, work = job
+    """worker: compile one grid point for real on realistic arrays, in an open
+    or a periodic domain, evaluate the initial accelerations and take NSTEPS
+    steps with output enabled; after the initial evaluation and after every
+    step every floating-point property of the real particles must be finite"""
+    name, idx, domain, work = job
     digits = S.config_of_index(name, idx)
-    out = {'scheme': name, 'index': idx, 'digits': digits,
+    out = {'scheme': name, 'index': idx, 'digits': digits, 'domain': domain,
            'labels': dict(S.describe(name, digits))}
-    import numpy as np
     t0 = time.time()
     buf = io.StringIO()
+    stages = []
+    st = {}
     try:
         with contextlib.redirect_stdout(buf), contextlib.redirect_stderr(buf):
-            scheme, particles, equations = S.run_scheme(
-                name, digits, patch_evaluator=False)
-            init_values(particles)
+            import pysph.sph.equation as EQ
+            EQ.group_counter = EQ._counter()
+            _serialise_builds()
+            opts, sopts, dim, solids, clean = S.config_values(name, digits)
+            scheme, fluids, sol, extra = S.build_scheme(name, opts, dim,
+                                                        solids)
+            particles, dom = run_arrays(name, dim, fluids, sol, extra, domain)
+            skw = {}
+            if sopts.get('integrator_cls') is not None:
+                skw['integrator_cls'] = S._resolve(sopts['integrator_cls'])
+            dt = 1e-4
+            scheme.configure_solver(dt=dt, tf=NSTEPS * dt, **skw)
+            scheme.setup_properties(particles, clean=clean)
+            equations = scheme.get_equations()
+            out['wall_inputs'] = set_wall_inputs(particles, dim, fluids,
+                                                 equations)
             solver = scheme.get_solver()
             from pysph.base.nnps import LinkedListNNPS
             kernel = solver.kernel
             nnps = LinkedListNNPS(dim=solver.dim, particles=particles,
-                                  radius_scale=kernel.radius_scale)
+                                  radius_scale=kernel.radius_scale,
+                                  domain=dom)
+            out['nreal'] = sum(pa.num_real_particles for pa in particles)
+            out['nghost'] = sum(pa.get_number_of_particles() for pa in
+                                particles) - out['nreal']
             solver.set_parallel_manager(None)
+            st['stage'] = 'setup (code generation + compilation)'
             solver.setup(particles, equations, nnps, kernel)
-            d = os.path.join(work, 'out_%s_%d' % (name, idx))
+            out['compile_wall'] = time.time() - t0
+            d = os.path.join(work, 'out_%s_%d_%s_%d' % (name, idx, domain,
+                                                        os.getpid()))
             os.makedirs(d, exist_ok=True)
             solver.set_output_directory(d)
             solver.set_output_fname('run')
             solver.set_print_freq(1)
-            solver.set_max_steps(2)
-            solver.solve(show_progress=False)
+            solver.set_max_steps(NSTEPS)
+
+            def check(stage):
+                bad = nonfinite_real(particles)
+                stages.append(stage)
+                if bad:
+                    out['nonfinite'] = bad
+                    out['nonfinite_at'] = stage
+                    raise _NonFinite()
+            integ = solver.integrator
+            orig_ia = integ.initial_acceleration
+
+            def initial_acceleration(t, dt):
+                st['stage'] = 'initial evaluation'
+                orig_ia(t, dt)
+                check('initial evaluation')
+                st['stage'] = 'step 1'
+            integ.initial_acceleration = initial_acceleration
+
+            def post_step(s):
+                check('step %d' % (s.count + 1))
+                st['stage'] = 'step %d' % (s.count + 2)
+            solver.add_post_step_callback(post_step)
+            check('set-up')
+            try:
+                solver.solve(show_progress=False)
+            except _NonFinite:
+                pass
+            out['steps'] = int(solver.count)
+            out['dumps'] = len(os.listdir(d))
     except (Exception, SystemExit) as e:   # compyle ends a failed build with sys.exit(1)
-        out['error'] = (type(e).__name__, str(e)[:500],
-                        traceback.format_exc()[-1200:])
-        out['wall'] = time.time() - t0
-        return out
-    bad = []
-    for pa in particles:
-        for p, arr in pa.properties.items():
-            a = arr.get_npy_array()
-            if a.dtype.kind == 'f' and a.size and not np.isfinite(a).all():
-                bad.append('%s.%s' % (pa.name, p))
-    out['nonfinite'] = sorted(bad)
-    out['steps'] = int(solver.count)
-    out['dumps'] = len([f for f in os.listdir(d)]) if os.path.isdir(d) else 0
+        if isinstance(e, _NonFinite):
+            pass        # at set-up
+        else:
+            out['error'] = (type(e).__name__, str(e)[:500],
+                            traceback.format_exc()[-1500:],
+                            st.get('stage', 'set-up'))
+            try:
+                out['nonfinite_when_raised'] = nonfinite_real(particles)
+            except Exception:
+                pass
+    out['stages'] = stages
     out['wall'] = time.time() - t0
     return out
 
@@ -525,8 +899,18 @@ def scan_job(job):
     return out
 
 
-def pool_job(job):
-    return scan_job(job[1:]) if job[0] == 'scan' else cython_job(job[1:])
+def dispatch(job):
+    """worker entry: ('examine' | 'scan' | 'cy' | 'run', ...)"""
+    kind = job[0]
+    if kind == 'examine':
+        return examine(job[1:])
+    if kind == 'scan':
+        return scan_job(job[1:])
+    if kind == 'cy':
+        return cython_job(job[1:])
+    if kind == 'run':
+        return run_job(job[1:])
+    raise ValueError('unknown job kind %r' % (kind,))
 
 
 def class_cover(results, bad, rng):
@@ -667,10 +1051,236 @@ def pairwise(name, rng, tries=40):
 
 
 # --------------------------------------------------------------------------
+# which configurations are compiled and run
+
+# Set-ups that do not run on the UNCHANGED tree, found by running every
+# scheme over a pairwise cover of its options in both domains (see the
+# docstring of run_arrays for the set-up).  Two kinds:
+#
+# (a) the set-up would be unphysical for the scheme: not a configuration the
+#     property speaks about; not run.
+NOT_A_SETUP = {
+    ('PCISPHScheme', 'open'):
+        'PCISPHScheme takes no solids and has no free-surface treatment (its '
+        'only shipped use is the fully periodic Taylor-Green problem): a '
+        'free-standing block in vacuum diverges in the first pressure '
+        'iteration (|u| 0.1 -> 1e3 in step 1) and the neighbour search '
+        'segfaults in step 3; run in the periodic domain only',
+}
+# (b) GENUINE defects of the unchanged tree (reported; first non-finite
+#     property in brackets).  Finiteness is not demanded for exactly these
+#     combinations; the thorough tier still runs them and records what it
+#     sees (`run-known-defect`), so a change of behaviour is visible.
+KNOWN_DEFECT = {
+    ('TSPHScheme', 'walls+periodic'):
+        'WallBoundary runs in a Group with real=True and UpdateGhostProps '
+        'only treats the fluid: the periodic ghost copies of WALL particles '
+        'keep n = dndh = 0, MomentumAndEnergy divides by s_n [fluid.au, '
+        'initial evaluation]',
+    ('PSPHScheme', 'walls+periodic'):
+        'as TSPHScheme: ghost copies of wall particles keep n = 0 '
+        '[fluid.au, initial evaluation]',
+    ('IISPHScheme', 'walls+periodic'):
+        'NumberDensity(dest=solid) runs in a Group with real=True: the '
+        'periodic ghost copies of wall particles keep V = 0, '
+        'SummationDensityBoundary adds rho0/s_V = inf [fluid.aii, initial '
+        'evaluation]',
+}
+# schemes for which BOTH domain variants of the chosen configuration are run
+# in the quick tier (the others get one, rotating with the seed)
+THOROUGH_EXTRA = 16
+BOTH_DOMAINS = ('EDACScheme', 'WCSPHScheme', 'TVFScheme', 'GTVFScheme') + GAS
+
+
+def real_scheme(name, opts):
+    """the scheme class that does the work (SchemeChooser delegates)"""
+    if name == 'SchemeChooser':
+        return {'wcsph': 'WCSPHScheme', 'tvf': 'TVFScheme',
+                'aha': 'AdamiHuAdamsScheme', 'edac': 'EDACScheme',
+                'iisph': 'IISPHScheme', 'gtvf': 'GTVFScheme'}[opts['scheme']]
+    return name
+
+
+def domain_variants(name, idx):
+    """-> [(domain, None | ('known-defect', reason))] of the variants of one
+    grid point that are a set-up at all"""
+    opts, _, dim, solids, _ = S.config_values(name, S.config_of_index(name, idx))
+    fluids, sol, extra = S.array_names(name, solids, opts)
+    walls = bool(sol or extra)
+    real = real_scheme(name, opts)
+    out = []
+    for dom in ('open', 'periodic'):
+        if dom == 'periodic' and walls and dim == 1:
+            continue        # nothing left to be periodic in
+        if (real, dom) in NOT_A_SETUP:
+            continue
+        why = None
+        if dom == 'periodic' and walls and \
+                (real, 'walls+periodic') in KNOWN_DEFECT:
+            why = ('known-defect', KNOWN_DEFECT[(real, 'walls+periodic')])
+        out.append((dom, why))
+    return out
+
+
+def run_strata(names):
+    """(label, scheme, predicate on the option values): every scheme class,
+    EDAC once per formulation (external pb = 0 / internal pb > 0)"""
+    out = []
+    for n in names:
+        if n == 'EDACScheme':
+            out.append(('EDACScheme/external', n, lambda o: o['pb'] == 0))
+            out.append(('EDACScheme/internal', n, lambda o: o['pb'] != 0))
+        else:
+            out.append((n, n, lambda o: True))
+    return out
+
+
+def _valid_points(name):
+    return [i for i in range(S.grid_size(name)) if not S.SPECS[name]['rejects'](
+        S.config_values(name, S.config_of_index(name, i))[0])]
+
+
+_COVER = {}
+
+
+def run_cover(name):
+    """a fixed (seed independent) list of grid points the scheme does not
+    reject by declaration that covers every pair of values of any two axes
+    (options, dim, solids, clean) occurring together in such a point.
+    Greedy over random candidates."""
+    if name in _COVER:
+        return _COVER[name]
+    rng = random.Random('C12-run-cover-' + name)
+    valid = _valid_points(name)
+    nax = len(S.grid_axes(name))
+    allax = list(range(nax))
+    digs = {}
+
+    def pairs(i):
+        if i not in digs:
+            digs[i] = _pairs(S.config_of_index(name, i), allax)
+        return digs[i]
+    need = set()
+    for i in (valid if len(valid) <= 4000 else rng.sample(valid, 4000)):
+        need |= pairs(i)
+    chosen = []
+    while need:
+        cand = rng.sample(valid, min(len(valid), 60))
+        best = max(cand, key=lambda i: len(pairs(i) & need))
+        if not (pairs(best) & need):
+            pr = sorted(need)[0]
+            best = next(i for i in valid if pr in pairs(i))
+        chosen.append(best)
+        need -= pairs(best)
+    _COVER[name] = chosen
+    return chosen
+
+
+def select_runs(names, seed, thorough, bad, have_scipy, notes):
+    """-> [(scheme, index, domain, known-defect reason or None)]
+
+    quick: per stratum ONE grid point, entry (seed + k) of the stratum's
+    pairwise cover (so consecutive seeds walk through the cover); for the
+    BOTH_DOMAINS schemes restricted to points that have both variants, which
+    are both run; for the others one variant, alternating with the seed.
+    Plus 6 further points (one variant each) of 6 schemes, rotating through
+    the schemes and their covers with the seed, which is where 1D walls of
+    the BOTH_DOMAINS schemes and walls in the combinations with a known
+    defect come in.
+    thorough: the whole pairwise cover of every scheme plus THOROUGH_EXTRA
+    seeded points per stratum, every variant."""
+    jobs = []
+    allpts = []
+    for k, (label, n, pred) in enumerate(run_strata(names)):
+        if n == 'ISPHScheme' and not have_scipy:
+            notes.append('ISPHScheme is not run: its pressure solve imports '
+                         'scipy, which is not installed here')
+            continue
+        cover = [i for i in run_cover(n) if (n, i) not in bad and
+                 pred(S.config_values(n, S.config_of_index(n, i))[0])]
+        var = {i: domain_variants(n, i) for i in cover}
+        if thorough:
+            # + points drawn with the seed from the rest of the grid
+            pool = [i for i in _valid_points(n) if (n, i) not in bad and
+                    i not in var and
+                    pred(S.config_values(n, S.config_of_index(n, i))[0])]
+            rs = random.Random('C12-thorough-%s-%d' % (label, seed))
+            for i in rs.sample(pool, min(len(pool), THOROUGH_EXTRA)):
+                var[i] = domain_variants(n, i)
+            for i in var:
+                jobs += [(n, i, d, w) for d, w in var[i]]
+            continue
+        clean = {i: [d for d, w in var[i] if w is None] for i in cover}
+        allpts += [(n, i) for i in cover if clean[i]]
+        if n in BOTH_DOMAINS:
+            cand = [i for i in cover if len(clean[i]) == 2]
+        else:
+            cand = [i for i in cover if clean[i]]
+        if not cand:
+            raise SystemExit('no runnable configuration of %s' % label)
+        i = cand[(seed + k) % len(cand)]
+        if n in BOTH_DOMAINS:
+            jobs += [(n, i, d, None) for d in clean[i]]
+        else:
+            jobs.append((n, i, clean[i][(seed + k) % len(clean[i])], None))
+    if not thorough:
+        taken = {(n, i) for n, i, _, _ in jobs}
+        per = {}
+        for n, i in allpts:
+            if (n, i) not in taken:
+                per.setdefault(n, []).append(i)
+        order = sorted(per)
+        random.Random('C12-extra').shuffle(order)
+        for j in range(min(6, len(order))):
+            n = order[(6 * seed + j) % len(order)]
+            i = per[n][(seed // max(1, len(order) // 6) + j) % len(per[n])]
+            doms = [d for d, w in domain_variants(n, i) if w is None]
+            jobs.append((n, i, doms[(seed + j) % len(doms)], None))
+    return list(dict.fromkeys(jobs))
+
+
+# --------------------------------------------------------------------------
 
 def case_of(o):
     return {'scheme': o['scheme'], 'index': o['index'], 'digits': o['digits'],
             'labels': o['labels']}
+
+
+def describe_run(r):
+    """one line: what a compiled run showed"""
+    if 'crash' in r:
+        return r['crash']
+    if 'error' in r:
+        e = r['error']
+        return 'raised %s during %s: %s\n%s' % (e[0], e[3], e[1], e[2])
+    if r.get('nonfinite'):
+        return ('non-finite values on the real particles after %s (property, '
+                'number of entries): %s' % (r['nonfinite_at'], r['nonfinite']))
+    return ('finite after %s; %d real + %d ghost particles, %d output files'
+            % (', '.join(r.get('stages', [])), r.get('nreal', 0),
+               r.get('nghost', 0), r.get('dumps', 0)))
+
+
+def run_failed(r):
+    return 'crash' in r or 'error' in r or bool(r.get('nonfinite'))
+
+
+def replay_run(case, name, idx, work):
+    preimport()
+    doms = [case['domain']] if case.get('domain') else \
+        [d for d, _ in domain_variants(name, idx)]
+    failed = False
+    for dom in doms:
+        R = ProcRunner(dispatch, 1)
+        R.add([('run', name, idx, dom, work)], 1800)
+        for job, status, r in R.run():
+            if status != 'ok':
+                r = {'crash': r}
+            elif '_exception' in r:
+                r = {'crash': 'harness exception: ' + r['_exception']}
+            print('observed (%s domain): %s' % (dom, describe_run(r)))
+            failed = failed or run_failed(r)
+    return failed
 
 
 def replay(path, work):
@@ -682,6 +1292,9 @@ def replay(path, work):
     print('replaying %s #%d %s (%s)' % (name, idx, case.get('labels'), mode))
     print('demand  :', rp.get('demand'))
     failed = False
+    if mode == 'run':
+        # (in a child process, before any pysph code has run in this one)
+        sys.exit(1 if replay_run(case, name, idx, work) else 0)
     o = examine((name, idx, True, True))
     if 'raised' in o and not o.get('declared_rejection'):
         print('observed: configuration raised', o['raised'])
@@ -710,10 +1323,7 @@ def replay(path, work):
             print('observed: Cython translated %d generated module(s), %d '
                   'lines' % (c['modules'], c.get('lines', 0)))
     if mode == 'run' and not failed:
-        r = run_job((name, idx, work))
-        print('observed run:', {k: r[k] for k in r if k not in ('digits',)})
-        if 'error' in r or r.get('nonfinite'):
-            failed = True
+        failed = replay_run(case, name, idx, work)
     sys.exit(1 if failed else 0)
 
 
@@ -769,13 +1379,20 @@ def main():
                 for (n, i, cgn, d) in jobs]
     rng.shuffle(jobs)
     nproc = min(16, os.cpu_count() or 4)
-    ctx = mp.get_context('fork')
+    preimport()
     results = []
-    with ctx.Pool(nproc) as pool:
-        for o in pool.imap_unordered(examine, jobs, chunksize=32):
+    dead = []           # (kind, scheme, index, status, what happened)
+    runner = ProcRunner(dispatch, nproc)
+    runner.add([('examine',) + j for j in jobs], 30, chunk=32)
+    for job, status, o in runner.run():
+        if status == 'ok' and '_exception' not in o:
             results.append(o)
-    R.note('examined %d grid points on the real code in %.0fs'
-           % (len(results), time.time() - t0))
+        else:
+            dead.append(('check', job[1], job[2], status if status != 'ok'
+                         else 'crash', o if status != 'ok' else
+                         'harness exception: ' + o['_exception']))
+    R.note('examined %d grid points on the real code in %.0fs (%s)'
+           % (len(results), time.time() - t0, runner.stats))
 
     # model answers for the compared points
     cmp_res = sorted((o for o in results if 'line' in o or 'raised' in o),
@@ -868,6 +1485,7 @@ def main():
     # a rejected / failing point cannot be generated
     bad = {(o['scheme'], o['index']) for o in results
            if 'raised' in o or not o.get('accepted') or not o.get('complete')}
+    bad |= {(n, i) for _, n, i, _, _ in dead}
 
     # code generation + Cython translation of a covering sample
     cy_points = []
@@ -884,39 +1502,47 @@ def main():
     rng.shuffle(cy_points)
 
     # compile + run
-    run_points = []
-    if thorough:
-        for n in names:
-            for idx in pairwise(n, rng)[:10 if n != 'SchemeChooser' else 6]:
-                run_points.append((n, idx))
-    else:
-        import importlib.util
-        have_scipy = importlib.util.find_spec('scipy') is not None
-        # ISPHScheme's pressure solve imports scipy at run time
-        pool_names = [n for n in names if have_scipy or n != 'ISPHScheme']
-        rng.shuffle(pool_names)
-        for n in pool_names[:3]:
-            run_points.append((n, rng.choice(stratified(n, rng, 1, 0))))
-    # a rejected / failing point cannot be run
+    import importlib.util
+    have_scipy = importlib.util.find_spec('scipy') is not None
     tf_pts = {p for pts in type_fail.values() for p in pts}
-    run_points = [p for p in dict.fromkeys(run_points)
-                  if p not in bad and p not in tf_pts]
-    # the few full compile-and-run jobs go on in the background while the
-    # Cython sample is translated (quick tier; the thorough tier's ~150 runs
-    # need all cores and follow it)
+    run_notes = []
+    run_sel = select_runs(names, a.seed, thorough, bad | tf_pts, have_scipy,
+                          run_notes)
+    for x in run_notes:
+        R.note(x)
+    known_why = {(n, i, d): w[1] for n, i, d, w in run_sel if w}
+    # one queue: the compile-and-run jobs first (they are the long ones; the
+    # open variants before the periodic ones, which then find the module of
+    # the same configuration in the cache), then the index-scan validation
+    # and the Cython sample
     t1 = time.time()
-    run_pool = ctx.Pool(min(nproc, max(1, len(run_points))))
-
-    def start_runs():
-        return run_pool.map_async(
-            run_job, [(n, i, a.work) for n, i in run_points], chunksize=1)
-    if not thorough:
-        run_async = start_runs()
     scan_points = class_cover(results, bad, rng)
-    with ctx.Pool(nproc) as pool:
-        both = list(pool.imap_unordered(
-            pool_job, [('scan', n, i, a.work) for n, i in scan_points] +
-            [('cy', n, i, a.work) for n, i in cy_points], chunksize=1))
+    runner = ProcRunner(dispatch, nproc)
+    run_tmo = 900 if thorough else 600
+    runner.add([('run', n, i, d, a.work) for n, i, d, _ in
+                sorted(run_sel, key=lambda x: x[2])], run_tmo)
+    runner.add([('scan', n, i, a.work) for n, i in scan_points] +
+               [('cy', n, i, a.work) for n, i in cy_points], 600)
+    both = []
+    runs = []
+    for job, status, o in runner.run():
+        if status == 'ok' and '_exception' in o:
+            status, o = 'crash', 'harness exception: ' + o['_exception']
+        if job[0] == 'run':
+            if status != 'ok':
+                dg = S.config_of_index(job[1], job[2])
+                o = {'scheme': job[1], 'index': job[2], 'digits': dg,
+                     'labels': dict(S.describe(job[1], dg)),
+                     'domain': job[3], 'crash': o, 'status': status}
+            runs.append(o)
+        elif status != 'ok':
+            if job[0] == 'scan':
+                raise SystemExit('index-scan validation of %s #%d: %s'
+                                 % (job[1], job[2], o))
+            dead.append(('cython', job[1], job[2], status, o))
+        else:
+            both.append(o)
+    R.note('process runner: %s' % runner.stats)
     cys = [c for c in both if 'problems' not in c]
     scans = [c for c in both if 'problems' in c]
     # the index-use scan against Cython's type checker
@@ -939,8 +1565,6 @@ def main():
            'on %d configurations covering %d equation/stepper classes; methods '
            'with index uses: %s' % (len(scans), len(validated),
                                     sorted(with_use)))
-    if thorough:
-        run_async = start_runs()
     cy_keys = {}
     covered = {}
     for c in sorted(cys, key=lambda c: (c['scheme'], c['index'])):
@@ -964,6 +1588,10 @@ def main():
                         'code generation for the whole problem succeeds: the '
                         'generated module passes the Cython translation step',
                         obs)
+    for mode, n, i, _, _ in dead:       # reported below as crash / timeout
+        if mode == 'cython':
+            covered.setdefault(n, set()).update(
+                S.describe(n, S.config_of_index(n, i)).items())
     for n in names:
         want = {kv for i in range(S.grid_size(n)) if (n, i) not in bad
                 for kv in S.describe(n, S.config_of_index(n, i)).items()}
@@ -978,37 +1606,59 @@ def main():
               sum(c['cached'] for c in cys), time.time() - t1,
               sum(cy_keys.values())))
 
-    runs = run_async.get()
-    run_pool.close()
-    run_pool.join()
-    for r in runs:
-        R.count('run:' + r['scheme'])
-        if 'error' in r and r['error'][0] == 'ModuleNotFoundError' and \
-                'scipy' in r['error'][1]:
-            R.count('run-skipped: scipy is not installed here')
-        elif r['scheme'] in FINITE_NOT_DEMANDED and (
-                r.get('nonfinite') or ('error' in r and
-                                       'Number of cells' in r['error'][1])):
-            R.count('run-diverged (monitored only): ' + r['scheme'])
-            R.note('run of %s #%d diverged on the toy lattice: %s'
-                   % (r['scheme'], r['index'],
-                      r.get('nonfinite') or r['error'][:2]))
-        elif 'error' in r:
-            R.prop_fail('C12:%s:run:%s' % (r['scheme'], r['error'][0]),
-                        dict(case_of(r), mode='run'),
-                        'compiles and runs 2 steps',
-                        '%s: %s\n%s' % r['error'])
-        elif r['nonfinite']:
-            R.prop_fail('C12:%s:run:nonfinite' % r['scheme'],
-                        dict(case_of(r), mode='run'),
-                        'all properties finite after 2 steps',
-                        'non-finite: %s' % r['nonfinite'])
-        else:
+    # workers that died / were killed while checking or generating a point
+    for mode, n, i, status, what in sorted(dead):
+        nfail += 1
+        dg = S.config_of_index(n, i)
+        R.prop_fail('C12:%s:%s' % (n, status),
+                    {'scheme': n, 'index': i, 'digits': dg,
+                     'labels': dict(S.describe(n, dg)), 'mode': mode},
+                    'set-up, the fail-fast checks and code generation of the '
+                    'configuration complete', what)
+
+    # the compiled runs
+    run_keys = {}
+    for r in sorted(runs, key=lambda r: (r['scheme'], r['index'],
+                                         r['domain'])):
+        R.count('run:%s:%s' % (r['scheme'], r['domain']))
+        case = dict(case_of(r), mode='run', domain=r['domain'])
+        why = known_why.get((r['scheme'], r['index'], r['domain']))
+        demand = ('the whole problem compiles and runs on a lattice with '
+                  'h = hdx*dx (%s domain): after the initial evaluation and '
+                  'after each of %d steps every floating-point property of '
+                  'the real particles is finite' % (r['domain'], NSTEPS))
+        if why is not None:
+            R.count('run-known-defect (finiteness not demanded)')
+            R.note('known defect of the unchanged tree, %s #%d %s %s: %s -- '
+                   'this run: %s' % (r['scheme'], r['index'], r['labels'],
+                                     r['domain'], why,
+                                     describe_run(r)[:300]))
+            continue
+        if not run_failed(r):
             R.count('run-ok')
-    R.note('compiled and ran %d configurations (2 steps, output on) in %.0fs: '
-           '%s' % (len(runs), time.time() - t1,
-                   [(r['scheme'], r['index'], round(r.get('wall', 0)))
-                    for r in runs][:60]))
+            continue
+        if 'crash' in r:
+            k = 'C12:%s:%s' % (r['scheme'], r.get('status', 'crash'))
+        elif 'error' in r:
+            k = 'C12:%s:run:%s' % (r['scheme'], r['error'][0])
+        else:
+            k = 'C12:%s:non-finite:%s' % (r['scheme'], r['nonfinite'][0][0])
+        nfail += 1
+        run_keys[k] = run_keys.get(k, 0) + 1
+        if run_keys[k] <= 4:
+            R.prop_fail(k, case, demand, describe_run(r))
+    for k, n in sorted(run_keys.items()):
+        R.note('%d compiled runs fail with key %s' % (n, k))
+    ndist = len({(r['scheme'], r['index']) for r in runs})
+    R.count('run-configurations', ndist)
+    R.note('compiled %d configurations and ran %d (configuration, domain) '
+           'variants (initial evaluation + %d steps, output on, lattice %s '
+           'points per direction) in %.0fs: %s'
+           % (ndist, len(runs), NSTEPS, RUN_N, time.time() - t1,
+              [(r['scheme'].replace('Scheme', ''), r['index'], r['domain'][:3],
+                round(r.get('wall', 0))) for r in runs][:80]))
+    for (n, d), why in sorted(NOT_A_SETUP.items()):
+        R.note('not run: %s in the %s domain: %s' % (n, d, why))
     if a.broken or R.d['disagreements']:
         R.d['search'] = {
             'note': 'the oracle above already ran on every grid point',
